@@ -34,7 +34,11 @@ def depth_premise(abbr, out, cfg):
     return bool(o['output.format']) and not cc.exempted_by_format_skip(abbr, out, o)
 
 
-def oracle_comments(out_on, out_off, cfg_on):
+def after_tag_blanks_dropped(s):
+    return re.sub(r'>[ \t]+', '>', s)
+
+
+def oracle_comments(out_on, out_off, cfg_on, abbr=None):
     """Enabling comments only adds comment text: erasing it gives the comment-off output."""
     a = fu.strip_comments_tokens(out_on)
     b = fu.content(out_off)
@@ -86,6 +90,14 @@ def oracle_comments(out_on, out_off, cfg_on):
         pat = re.escape(nl + base) + '(?:' + re.escape(ind) + ')*' + r'<!-- /[^\r\n]*? -->' if ind else \
             re.escape(nl + base) + r'<!-- /[^\r\n]*? -->'
         erased = re.sub(pat, '', out_on)
+        if erased != out_off and abbr is not None and '${' in abbr and \
+                after_tag_blanks_dropped(erased) == after_tag_blanks_dropped(out_off):
+            # A value with an explicit field on a node with children: the rest of the value follows the children, and
+            # its leading blanks are dropped when the children ended on another line -- which a comment with a line
+            # break brings about (`</p> b` vs `</p>\n<!-- /.c -->b`).  Blanks between a tag and the text after it are
+            # the whitespace the statement calls cosmetic; coq/props/C12.v states C12_comments_additive on text items
+            # with leading blanks removed for this very reason.  Only this difference is let through.
+            erased = out_off
         if erased != out_off:
             return 'erasing the comment lines gives %r, comment-off output is %r' % (erased[:200], out_off[:200])
     return None
@@ -448,7 +460,7 @@ def evaluate(kind, abbr, cfg_a, cfg_b, ra, rb):
             return bad, classify_alignment(ra[1], cfg_a, bad)
         return bad, None
     if kind == 'comments':
-        return oracle_comments(ra[1], rb[1], cfg_a), None
+        return oracle_comments(ra[1], rb[1], cfg_a, abbr), None
     if kind == 'selfclose':
         bad = oracle_selfclose(ra[1], rb[1])
         if bad:
